@@ -17,6 +17,8 @@ Conventions: bytes are `UInt8`, Go `int`/`int64` values are `Nat` (the code neve
 `readFrom`, which can, yields `Int`s).  Where Go would panic or misbehave the model returns an explicit
 outcome (`RdErr.panicDiv`, `RdErr.badLayout`, `Except.error .outOfRange`), never a default value.
 -/
+set_option linter.unusedVariables false
+set_option linter.unusedSimpArgs false
 namespace Hts.Model.Fai
 
 abbrev Bytes := List UInt8
